@@ -169,7 +169,7 @@ def child_main(prop: str) -> None:
     desc = json.loads(sys.stdin.read())
     mod = importlib.import_module(f'vlib.props.{prop.lower()}')
     res = mod.run_shard(desc)
-    if isinstance(res, Result):
+    if hasattr(res, 'to_dict'):
         res = res.to_dict()
     sys.stdout.write('\n@@RESULT@@' + json.dumps(res, default=jdefault))
     sys.stdout.flush()
